@@ -53,12 +53,13 @@ POOL = [
     '$.select($ * 2).indexOf(4) + $.len()',                                    # 14 overload-rich names
     '$.zip($.skip(1)).select($[0] + $[1]).takeWhile($ < 100).toList()',        # 15 zip/skip/takeWhile
     '$.orderBy($).toList()',                                                   # 16 plain sort (short trace)
+    '$.orderByDescending($).toList()',                                         # 17 a different ordering
 ]
 DOCS = [[1, 1, 2, 3, 3], [3, 3, 1, 2, 2], [2, 5, 5, 1], [2, 1], [2, 1, 3], [3, 1, 2]]
-CORE_Q = [0, 1, 2, 3, 5, 7, 8, 14]
+CORE_Q = [1, 2, 3, 5, 7, 8, 16, 17]
 MONITOR_Q = [(1, 0), (3, 3), (8, 0), (12, 0)]      # (statement, document)
 BOUNDS = {
-    'quick': 'coarse: all unordered pairs (incl. same statement twice) of an 8-statement core with preemption bound 1, 6 deep pairs with bound 2 where points**2 <= 25000 (small documents), each split into 6 disjoint shards, '
+    'quick': 'coarse: all unordered pairs (incl. same statement twice) of an 8-statement core with preemption bound 1, 4 deep pairs with bound 2 where points**2 <= 25000 (small documents), each split into 6 disjoint shards, '
              '4 triples with bound 1; fine: 2 ordered pairs, every line event; monitor: 4 statements',
     'thorough': 'coarse: all pairs of the 16-statement pool with bound 2 (bound 3 for an 8-pair core), all triples of a 5-statement core with bound 2; '
                 'fine: 40 ordered pairs, every line event; monitor: all 16 statements; yaql.eval module path',
@@ -178,8 +179,19 @@ def shared_digest(skip_globals=()):
             else:
                 h.append((k, id(v)))
             if isinstance(v, type) and v.__module__.startswith('yaql'):
-                h.append((k, tuple((a, id(b)) for a, b in vars(v).items())))
+                _class_digest(v, h, 0)
     return hash(tuple(h))
+
+
+def _class_digest(cls, h, depth):
+    """Attributes of a class, and of classes nested in it (a comparator or iterator class defined inside another
+    class is as shared as a module-level one)."""
+    items = tuple((a, id(b)) for a, b in vars(cls).items())
+    h.append((cls.__qualname__, items))
+    if depth < 3:
+        for a, b in vars(cls).items():
+            if isinstance(b, type) and b is not cls:
+                _class_digest(b, h, depth + 1)
 
 
 # ---------------------------------------------------------------------------
@@ -400,9 +412,9 @@ def jobs(tier, seed):
         if part:
             out.append(('coarse-pairs-%02d' % s, 'job_coarse', (part, 1 if quick else 2, 'pair', None if quick else 40000)))
     # deeper bound for selected pairs; each group is split into disjoint shards of its schedule tree
-    deep = [((1, 0), (2, 1)), ((1, 0), (1, 1)), ((8, 0), (8, 1)), ((16, 4), (16, 5)), ((3, 3), (3, 3)), ((2, 3), (5, 3))]
+    deep = [((1, 0), (2, 1)), ((1, 0), (1, 1)), ((8, 0), (8, 1)), ((16, 4), (17, 5))]
     if not quick:
-        deep += [((9, 0), (12, 1)), ((5, 3), (5, 3)), ((7, 3), (7, 3)), ((0, 3), (14, 3)), ((4, 3), (13, 3)), ((6, 3), (10, 3))]
+        deep += [((16, 4), (16, 5)), ((3, 3), (3, 3)), ((2, 3), (5, 3)), ((9, 0), (12, 1)), ((5, 3), (5, 3)), ((7, 3), (7, 3)), ((0, 3), (14, 3)), ((4, 3), (13, 3)), ((6, 3), (10, 3))]
     install_hooks()
     for gi, g in enumerate(deep):
         tot = sum(len(sched.Execution([lambda i=i, d=d: evaluate(i, d)], [], None).go().trace) for i, d in g)
